@@ -413,7 +413,14 @@ func (e *Engine) localMods(fn *ssa.Function) (map[string]bool, []*ssa.Function, 
 						}
 					}
 				default:
-					all = true
+					// a call through a function value: anything may happen, unless the function's contract
+					// declares its dynamic calls to be allocating constructors (opt dyncalls-pure, an assumption
+					// about the TypeToRR table that is listed in the evidence)
+					if con := e.contractFor(fn); con != nil && con.Opts["dyncalls-pure"] != "" {
+						e.assume("%s: calls through function values (record constructors of the TypeToRR table) only allocate", fnName(fn))
+					} else {
+						all = true
+					}
 				}
 			}
 		}
